@@ -88,6 +88,9 @@ func runC23(c *Ctx) {
 				}
 			}
 			c.Exists(cb, "deletion present", del, 1)
+			// exactness: a record is kept only if it ends after the height
+			c.MP(cb, "record kept only if it ends after the height", c.ReturnsD(cb, 0, "true"), 1,
+				GCalled("*.Delete(key)"), GCmp(rec+"#1.End()", ">", h))
 		}
 		c.MP(parent, "success: deletions written", c.SuccessReturns(parent), 1, GOk("*.Batch(*)"))
 	}
